@@ -1,20 +1,25 @@
 #!/bin/bash
 # usage: tools/try_mutant.sh <patch.diff> <prop> [<prop>...]
-# applies the patch to /repo's working tree, runs the quick checks, reverts.
+# Applies the patch to a scratch worktree of /repo HEAD (default /tmp/mrepo,
+# created on demand; /repo itself stays untouched so that background runs are
+# not disturbed), runs the quick checks against it (VERIF_REPO), reverts.
+# TIER=thorough for the other tier.  Writes no evidence.
 set -u
 patch=$1; shift
-cd /repo || exit 2
-if [ -n "$(git status --porcelain --untracked-files=no)" ]; then echo "repo dirty"; exit 2; fi
-if ! git apply "$patch" 2>/tmp/apply.err; then
-  if ! git apply --3way "$patch" 2>>/tmp/apply.err; then
-    echo "PATCH DOES NOT APPLY"; tail -3 /tmp/apply.err; git reset -q --hard HEAD; exit 3
+M=${MREPO:-/tmp/mrepo}
+if [ ! -d $M ]; then git -C /repo worktree add --detach $M HEAD >/dev/null 2>&1 || exit 2; fi
+git -C $M checkout -q --detach $(git -C /repo rev-parse HEAD) 2>/dev/null
+git -C $M checkout -q -- . 
+if ! git -C $M apply "$patch" 2>/tmp/apply.err; then
+  if ! git -C $M apply --3way "$patch" 2>>/tmp/apply.err; then
+    echo "PATCH DOES NOT APPLY"; tail -3 /tmp/apply.err; git -C $M reset -q --hard HEAD; exit 3
   fi
-  git reset -q   # unstage what --3way staged
+  git -C $M reset -q
 fi
-trap 'cd /repo && git checkout -- . ' EXIT
+trap 'git -C $M checkout -q -- . ' EXIT
 cd /verif
 for p in "$@"; do
-  out=$(VERIF_NOEVIDENCE=1 timeout 900 ./check $p --tier ${TIER:-quick} 2>&1)
+  out=$(VERIF_REPO=$M VERIF_NOEVIDENCE=1 timeout 1800 ./check $p --tier ${TIER:-quick} 2>&1)
   rc=$?
   echo "== $p rc=$rc: $(echo "$out" | grep -E 'VIOLATION|HARNESS' | head -3 | cut -c1-200)"
   echo "$out" | grep -E "^(violation signature|detail)" | head -4 | cut -c1-300
